@@ -1,6 +1,9 @@
 import GdcVerif.Lemmas.RleTotal
 import GdcVerif.Lemmas.ParsersTotal
 import GdcVerif.Lemmas.J2kAlloc
+import GdcVerif.Lemmas.J2kLevels
+import GdcVerif.Lemmas.J2kGluePasses
+import GdcVerif.Lemmas.J2kProgressionExit
 import GdcVerif.Lemmas.JpegAlloc
 import GdcVerif.Lemmas.J2kTileClamp
 import GdcVerif.Lemmas.J2kPacketBodyAlloc
@@ -113,6 +116,24 @@ theorem c09_j2k_alloc_sum (bs : Bytes) (hb : IsBytes bs) : (parse bs).1.allocs.s
 
 example : IsBytes [0xff, 0x4f, 0xff, 0x51] := by unfold IsBytes; decide
 
+/-- (7') TIME, decomposition levels: every COD segment the parser accepts declares at most 32 decomposition levels
+    (guard `numLevels > 32` of parseCodingStyleParams, T.800 Table A.15) — element 4 of the canonical COD content
+    `[scod, prog, layers, mct, levels, …]`; so every per-resolution loop of the tile and packet decoders makes at
+    most 33 turns per component, whatever the level byte of the stream (it was 0..255: class c09-j2k-levels-over-32) -/
+theorem c09_j2k_cod_levels_le_32 (bs : Bytes) (c : List Nat) (k : Nat) (h : parseCOD bs = some (c, k)) :
+    ∃ lv, c[4]? = some lv ∧ lv ≤ 32 := parseCOD_levels h
+
+/-- (7'') the same for every accepted COC segment (content `[scoc, levels, …]`), for every Csiz -/
+theorem c09_j2k_coc_levels_le_32 (csiz : Nat) (bs : Bytes) (comp : Nat) (c : List Nat) (k : Nat)
+    (h : parseCOC csiz bs = some (comp, c, k)) : ∃ lv, c[1]? = some lv ∧ lv ≤ 32 := parseCOC_levels h
+
+/-- non-vacuity: a COD with 32 levels is accepted; the former witness's COD (255 levels) and one with 33 are rejected -/
+example : parseCOD [0, 12, 0, 2, 0, 1, 0, 32, 4, 4, 0, 1] = some ([0, 2, 1, 0, 32, 4, 4, 0, 1], 12) := by decide
+example : parseCOD [0, 12, 0, 2, 0, 1, 0, 255, 4, 4, 0, 1] = none := by decide
+example : parseCOD [0, 12, 0, 2, 0, 1, 0, 33, 4, 4, 0, 1] = none := by decide
+example : parseCOC 3 [0, 9, 0, 0, 32, 4, 4, 0, 1] = some (0, [0, 32, 4, 4, 0, 1], 9) := by decide
+example : parseCOC 3 [0, 9, 0, 0, 40, 4, 4, 0, 1] = none := by decide
+
 end J2kH
 
 namespace Rle
@@ -199,3 +220,49 @@ example : (bodyLoop 8 .default 5 [{ included := true, len := 1000 }]) =
 example : gatherAllocs 3 1 0 0 [{ included := true, len := 3 }] = [3] := by decide
 
 end PktBody
+
+namespace J2kGlue
+open J2k J2kPH
+
+/-- (14) TIME, claimed coding passes: a code-block whose packet headers claim 91 or more coding passes in total —
+    whatever QCD, the zero-bit-plane count, the data and the block size — is never handed to the T1 decoder by
+    `buildAndDecodeCodeBlocks` (guard `info.maxBitplane >= 31`, repair of class c09-time-j2k-claimed-coding-passes):
+    it is left at zero.  Below that the starting bit-plane is at most 30, so T1 runs at most 3·31 passes per block
+    (before the repair a 64 KiB stream made it run 2.6 million). -/
+theorem c09_claimed_passes_not_decoded (w h orient nb : Nat) (i : Incl) (data : List Nat) (hp : 91 ≤ i.numPasses) :
+    t1Decode w h orient nb i data = some (List.replicate (w * h) 0) :=
+  t1Decode_claimed_passes_zero w h orient nb i data hp
+
+/-- the former witness's shape: 2664672 claimed passes for a 64x64 block with QCD 9 bit-planes; and the boundary:
+    90 passes give 30 bit-planes (decoded), 91 give 31 (dropped) -/
+example : estimateMaxBitplane 2664672 0 9 = 888224 := by decide
+example : estimateMaxBitplane 90 0 9 = 30 := by decide
+example : estimateMaxBitplane 91 0 9 = 31 := by decide
+
+end J2kGlue
+
+namespace J2kProg
+
+/-- (15) TIME, LRCP without precincts: `decLRCPx` is decodeLRCP WITH the exit `if visited == 0 { return }` at the end
+    of a layer (repair of class c09-time-j2k-no-precinct-loop).  SOUND: it generates exactly the packet sequence of
+    the loop without the exit, for every precinct table, layer, resolution and component count — what a pass visits
+    does not depend on the layer, so the skipped layers contribute nothing. -/
+theorem c09_lrcp_exit_sound (nL nR nC : Nat) (idx : Nat → Nat → List Nat) :
+    decLRCPx nR nC idx (range nL) = decLRCP nL nR nC idx := decLRCPx_eq_decLRCP nL nR nC idx
+
+/-- (15') the same for decodeRLCP with `if visited == 0 { break }` at the end of a layer of one resolution -/
+theorem c09_rlcp_exit_sound (nL nR nC : Nat) (idx : Nat → Nat → List Nat) :
+    decRLCPx nL nR nC idx = decRLCP nL nR nC idx := decRLCPx_eq_decRLCP nL nR nC idx
+
+/-- (15'') BOUNDED: with no precinct in any (component, resolution) the repaired LRCP loop ends after its first
+    layer pass, whatever the declared layer count (it made layers x resolutions x components turns) -/
+theorem c09_lrcp_no_precinct (nR nC : Nat) (idx : Nat → Nat → List Nat) (h : ∀ c r, idx c r = []) (ls : List Nat) :
+    decLRCPx nR nC idx ls = [] := decLRCPx_no_precinct nR nC idx h ls
+
+/-- non-vacuity: a table with precincts (2 layers, 2 resolutions, 1 component, precincts 0,1 at resolution 1 only) -/
+example : decLRCPx 2 1 (fun _ r => if r = 1 then [0, 1] else []) (range 2) =
+    [(0, 1, 0, 0), (0, 1, 0, 1), (1, 1, 0, 0), (1, 1, 0, 1)] := by decide
+example : decRLCPx 2 2 1 (fun _ r => if r = 1 then [0, 1] else []) =
+    [(0, 1, 0, 0), (0, 1, 0, 1), (1, 1, 0, 0), (1, 1, 0, 1)] := by decide
+
+end J2kProg
